@@ -150,6 +150,109 @@ fn exec_list(keyed: bool, lists: &[Vec<Item>]) -> (String, Option<String>, bool)
     (out.join(" | "), verdict, lists.len() > 1)
 }
 
+/// `dom keyedsel|indexedsel <ev;ev;…>`: the list prop is a DERIVED value that hands back one of two list signals
+/// (`move || if sel.get() { y } else { x }`); events `x<list>` / `y<list>` write a list signal, `s0` / `s1` select.
+/// Same observations and oracle as `keyed|indexed` over the chain of DISPLAYED lists.
+fn exec_list_sel(keyed: bool, evs: &[&str]) -> (String, Option<String>, bool) {
+    // the displayed list after the mount and after every event
+    let (mut lx, mut ly, mut sl): (Vec<Item>, Vec<Item>, bool) = (vec![], vec![], false);
+    let mut lists: Vec<Vec<Item>> = vec![vec![]];
+    for e in evs {
+        if let Some(l) = e.strip_prefix('x') { lx = parse_lists(l).remove(0); }
+        else if let Some(l) = e.strip_prefix('y') { ly = parse_lists(l).remove(0); }
+        else { sl = *e == "s1"; }
+        lists.push(if sl { ly.clone() } else { lx.clone() });
+    }
+    let lists = &lists[..];
+    let evs_owned: Vec<String> = evs.iter().map(|e| e.to_string()).collect();
+    domutil::reset_document();
+    let container = domutil::container("main");
+    let calls = Rc::new(Cell::new(0u32));
+    let mut out = vec![];
+    let mut verdict: Option<String> = None;
+    let list_sig: Rc<RefCell<Option<(Signal<Vec<Item>>, Signal<Vec<Item>>, Signal<bool>)>>> = Default::default();
+    let first = lists[0].clone();
+    let (c2, ls2, cont2) = (calls.clone(), list_sig.clone(), container.clone());
+    let root = create_root(move || {
+        let _ = &first;
+        let (sx, sy, ssel) = (create_signal(Vec::<Item>::new()), create_signal(Vec::<Item>::new()), create_signal(false));
+        *ls2.borrow_mut() = Some((sx, sy, ssel));
+        let sig = move || if ssel.get() { sy } else { sx };
+        let c3 = c2.clone();
+        let view_fn = move |it: Item| {
+            let id = c3.get();
+            c3.set(id + 1);
+            view! { li(data-c=id.to_string(), data-k=it.0.to_string()) { (it.1.to_string()) } }
+        };
+        let v: View = if keyed {
+            view! { div { "pre" Keyed(list=sig, view=view_fn, key=|it: &Item| it.0) "post" } }
+        } else {
+            view! { div { "pre" Indexed(list=sig, view=view_fn) "post" } }
+        };
+        sycamore::web::render_in_scope(move || v, cont2.unchecked_ref());
+    });
+    domutil::run_microtasks();
+    let parent: Node = container.first_child().expect("div");
+    let mut first_seen: HashMap<u32, u64> = HashMap::new();
+    let observe = |first_seen: &mut HashMap<u32, u64>, verdict: &mut Option<String>| -> String {
+        let mut parts = vec![];
+        let mut n = parent.first_child();
+        while let Some(x) = n {
+            let part = match x.node_type() {
+                1 => {
+                    let e: &web_sys::Element = x.unchecked_ref();
+                    let c: u32 = e.get_attribute("data-c").unwrap().parse().unwrap();
+                    let id = domutil::id(&x);
+                    let f = *first_seen.entry(c).or_insert(id);
+                    if f != id { verdict.get_or_insert(format!("[dom-identity] the item created by call {c} is now a different DOM node")); }
+                    format!("{}#{}={}", e.get_attribute("data-k").unwrap(), c, x.text_content().unwrap_or_default())
+                }
+                3 => format!("T{}", x.text_content().unwrap_or_default()),
+                _ => "M".to_string(),
+            };
+            parts.push(part);
+            n = x.next_sibling();
+        }
+        parts.join(",")
+    };
+    out.push(observe(&mut first_seen, &mut verdict));
+    let (sx, sy, ssel) = list_sig.borrow().unwrap();
+    let mut serving: HashMap<u32, u32> = HashMap::new();
+    for (step, new) in lists.iter().enumerate() {
+        if step > 0 {
+            let e = evs_owned[step - 1].clone();
+            if let Err(m) = catch(|| {
+                if let Some(l) = e.strip_prefix('x') { sx.set(parse_lists(l).remove(0)); }
+                else if let Some(l) = e.strip_prefix('y') { sy.set(parse_lists(l).remove(0)); }
+                else { ssel.set(e == "s1"); }
+            }) {
+                out.push("panic".into());
+                verdict.get_or_insert(format!("[dom-list-panic] update {step} panicked: {m}"));
+                break;
+            }
+            out.push(observe(&mut first_seen, &mut verdict));
+        }
+        // oracle: region between the markers == items of the new list in order; retained keys keep their node
+        let obs = out.last().unwrap().clone();
+        let parts: Vec<&str> = obs.split(',').collect();
+        let ok_frame = parts.first() == Some(&"Tpre") && parts.get(1) == Some(&"M") && parts.last() == Some(&"Tpost") && parts.get(parts.len().saturating_sub(2)) == Some(&"M");
+        if !ok_frame { verdict.get_or_insert(format!("[dom-list] update {step}: siblings/markers around the list are not intact: {obs}")); continue; }
+        let items: Vec<(u32, u32)> = parts[2..parts.len() - 2].iter().map(|p| { let (k, r) = p.split_once('#').unwrap(); let (c, _) = r.split_once('=').unwrap(); (k.parse().unwrap(), c.parse().unwrap()) }).collect();
+        let keys: Vec<u32> = items.iter().map(|i| i.0).collect();
+        let want: Vec<u32> = new.iter().map(|i| i.0).collect();
+        if keys != want { verdict.get_or_insert(format!("[dom-list] update {step}: rendered keys {keys:?}, list has {want:?}")); }
+        let uniq = { let mut k = want.clone(); k.sort(); k.dedup(); k.len() == want.len() };
+        if keyed && uniq {
+            for (k, c) in &items {
+                if let Some(pc) = serving.get(k) { if pc != c { verdict.get_or_insert(format!("[dom-list] update {step}: key {k} was retained but is rendered by a new node (call {c}, was {pc})")); } }
+            }
+            serving = items.iter().cloned().collect();
+        } else { serving.clear(); }
+    }
+    root.dispose();
+    (out.join(" | "), verdict, lists.len() > 1)
+}
+
 /// `dom keyeddyn|indexeddyn <ev;ev;…>` with `ev` = `l<list>` (set the list) or `t<v>` (write the toggle):
 /// every item view is a dynamic view at its top level (no wrapping element), switching on the toggle
 fn exec_list_dyn(keyed: bool, evs: &[&str]) -> (String, Option<String>, bool) {
@@ -217,6 +320,8 @@ fn exec_list_dyn(keyed: bool, evs: &[&str]) -> (String, Option<String>, bool) {
 pub fn exec(line: &str) -> (String, Option<String>, bool) {
     let t: Vec<&str> = line.split(' ').collect();
     match t[1] {
+        "keyedsel" => exec_list_sel(true, &t[2].split(';').collect::<Vec<_>>()),
+        "indexedsel" => exec_list_sel(false, &t[2].split(';').collect::<Vec<_>>()),
         "keyeddyn" => exec_list_dyn(true, &t[2].split(';').collect::<Vec<_>>()),
         "indexeddyn" => exec_list_dyn(false, &t[2].split(';').collect::<Vec<_>>()),
         "reconcile" => exec_reconcile(&t[2..]),
@@ -267,6 +372,24 @@ pub fn generate(args: &Args) -> Vec<String> {
     for fam in ["t2;l1.0,2.0;t0;l1.0,2.0,3.0;t1;l2.0,1.0;t2;l2.0;t0", "l1.0;t5;l1.0,2.0;t3;l2.0,1.0;l1.0", "t2;l3.0;t1;l3.0,4.0;l4.0,3.0;t2;l3.0;t0;l3.0,5.0"] {
         l.push(format!("dom keyeddyn {fam}"));
         l.push(format!("dom indexeddyn {fam}"));
+    }
+    // the list prop as a derived value that returns one of two list signals
+    for fam in ["x1.0,2.0;y3.0;s1;y3.0,4.0;x2.0,1.0;s0;x2.0", "s1;y1.0;y1.0,2.0;y2.0,1.0;s0;x5.0;s1", "x1.0;x1.0,2.0;x2.0;y2.0;s1;s0"] {
+        l.push(format!("dom keyedsel {fam}"));
+        l.push(format!("dom indexedsel {fam}"));
+    }
+    for i in 0..(if thorough { 20_000 } else { 1_500 }) {
+        let n = 3 + rng.below(6);
+        let evs: Vec<String> = (0..n).map(|_| match rng.below(5) {
+            0 => format!("s{}", rng.below(2)),
+            k => {
+                let m = rng.below(5);
+                let mut v: Vec<Item> = vec![];
+                for _ in 0..m { let key = 1 + rng.below(6) as u32; if !v.iter().any(|x| x.0 == key) { v.push((key, rng.below(2) as u32)); } }
+                format!("{}{}", if k % 2 == 0 { "x" } else { "y" }, if v.is_empty() { "-".to_string() } else { v.iter().map(|(k, p)| format!("{k}.{p}")).collect::<Vec<_>>().join(",") })
+            }
+        }).collect();
+        l.push(format!("dom {} {}", if i % 3 == 2 { "indexedsel" } else { "keyedsel" }, evs.join(";")));
     }
     // chains of list updates through the real Keyed / Indexed components
     let n = if thorough { 60_000 } else { 4_000 };
